@@ -35,6 +35,29 @@ func (rwc *readerWithCloser) Close() error {
 	return nil
 }
 
+// removeAll removes name and everything beneath it by walking the tree rather
+// than delegating to Fs.RemoveAll: afero.MemMapFs.RemoveAll removes every
+// entry whose path merely starts with name, so removing "bucket" would also
+// remove its sibling "bucket2".
+func removeAll(fs afero.Fs, name string) error {
+	entries, err := afero.ReadDir(fs, name)
+	if err != nil {
+		return err
+	}
+	for _, entry := range entries {
+		child := filepath.Join(name, entry.Name())
+		if entry.IsDir() {
+			err = removeAll(fs, child)
+		} else {
+			err = fs.Remove(child)
+		}
+		if err != nil && !os.IsNotExist(err) {
+			return err
+		}
+	}
+	return fs.Remove(name)
+}
+
 // ensureNoOsFs makes a best-effort attempt to ensure you haven't used
 // afero.OsFs directly in any of these backends; to do so would risk exposing
 // you to RemoveAll against your `/` directory.
